@@ -9,5 +9,6 @@ CONSTANTS
   BigLens = {65535, 65536}
   Variants = {"stored", "fixed", "fixed2", "bfinal", "std-2", "std0", "std1", "std5", "std9", "std2"}
   HModes = {"chain", "default"}
+CONSTRAINT Emit
 INVARIANTS InvCompleteIsWhole InvOrder InvFailStop InvNothingPastViolation InvDecode
 CHECK_DEADLOCK FALSE
